@@ -101,7 +101,10 @@ func (e *expiryManager) _scheduleExpirationAtOrBefore(exp uint32) {
 
 // runExpiry is called when the timer expires. It calls the expirationFunc and then reschedules the timer if necessary.
 func (e *expiryManager) runExpiry() {
+	verifPoint("exp.fire")
 	e.mutex.Lock()
 	defer e.mutex.Unlock()
+	verifPoint("exp.locked")
 	e.expirationFunc()
+	verifPoint("exp.done")
 }
